@@ -441,4 +441,6 @@ def build(tier):
     obls.append(Obligation('paych.collect', run_collect, props_collect,
                            descr='collect: parties only, only at epoch >= settling_at != 0, pays to_send to payee then the rest to payer, deletes',
                            bounds='one call; all state symbolic; both sends succeed or fail independently', max_paths=2000))
+    from . import paych_ctor
+    obls += paych_ctor.build(tier)
     return obls
